@@ -776,3 +776,12 @@ package exec
 //@   loop 5 invariant registry: implies(old(regOK()), regOK())
 //@   loop 6 invariant tokens: heldCombiners == old(heldCombiners)
 //@   loop 6 invariant registry: implies(old(regOK()), regOK())
+
+// Writing a machine combiner merges its spilled runs with the user's combine function, in a goroutine of its own:
+// no panic may escape it (it would end the worker process); a recovered panic is the combiner's Fatal error.
+//@ func exec.(*worker).writeCombiner$1 () (err)
+//@   requires w != nil && w.commitLimiter != nil
+//@   flag recover_safety
+//@   flag trust_nil_safety
+//@   ensures  panic-is-the-combiners-error: implies(panicked, err != nil && isFatal(err))
+//@   modifies unknown
